@@ -209,7 +209,7 @@ class TorchCalls(TorchOps):
             return self.dict_fromkeys(args, node)
         if fn == "zip":
             strict = isinstance(kwargs.get("strict"), Const) and kwargs["strict"].v is True
-            return self.zip([self.consume(a, node, full=strict) for a in args], node)  # stops with the shortest: longer iterators keep a rest
+            return self.zip([a if isinstance(a, tuple) else self.consume(a, node, full=strict) for a in args], node)  # stops with the shortest: longer iterators keep a rest
         if fn == "enumerate":
             lst = self.to_list(args[0], "list", node)
             if isinstance(lst, ListV) and lst.items is not None:
@@ -454,6 +454,16 @@ class TorchCalls(TorchOps):
         return self.unk(f"{kind}() of {type(v).__name__}", node)
 
     def zip(self, args, node):
+        if len(args) == 1 and isinstance(args[0], tuple) and args[0] and args[0][0] == "*":
+            # zip(*rows): the transposition of a sequence of equally long sequences
+            outer = self.to_list(args[0][1], "list", node)
+            inner = outer.elem if isinstance(outer, ListV) and outer.items is None else None
+            if isinstance(inner, ListV):
+                self.ev("zip_transpose", node, outer=repr(outer.order), inner=repr(inner.order))
+                if inner.items is not None:
+                    return ListV(items=tuple(ListV(items=None, elem=x, kind="tuple", order=outer.order, over=outer.over) for x in inner.items))
+                return ListV(items=None, elem=ListV(items=None, elem=inner.elem, kind="tuple", order=outer.order, over=outer.over), kind="list", order=inner.order, over=inner.over)
+            return self.unk("zip(*sequence) of this sequence", node)
         lists = [self.to_list(a, "list", node) for a in args]
         if any(not isinstance(l, ListV) for l in lists):
             return self.unk("zip of non-sequences", node)
